@@ -102,6 +102,7 @@ var phases = map[string]func(cr *childResult, seed uint64, quick bool){
 	"h3":       phaseH3,
 	"wire":     phaseWire,
 	"h2replay": phaseH2Replay,
+	"carry":    phaseCarry,
 }
 
 func main() {
@@ -144,7 +145,7 @@ func runC09(r *hk.Run) {
 		return
 	}
 	os.MkdirAll(r.OutDir, 0o755)
-	for _, ph := range []string{"replay", "h2replay", "h1", "wire", "h2", "h3"} {
+	for _, ph := range []string{"replay", "h2replay", "carry", "h1", "wire", "h2", "h3"} {
 		out := fmt.Sprintf("%s/child_%s.json", r.OutDir, ph)
 		os.Remove(out)
 		cmd := exec.Command(exe, "child", ph, fmt.Sprint(r.Seed), r.Tier, out)
